@@ -1052,6 +1052,20 @@ static void janet_chan_drop_stale(JanetChannel *channel, JanetQueue *pending) {
             break;
         }
     }
+    /* Stale registrations can also sit behind a live one, where the loop above does not reach them. When the
+     * ring is full, go through all of it once before the next push makes it grow: each entry is taken from
+     * the head and the live ones are put back at the tail, which keeps their order. Either enough entries
+     * go away, or the ring doubles and the next sweep is that many pushes away, so the cost stays constant
+     * per registration. */
+    int32_t n = janet_q_count(pending);
+    if (n > 0 && n + 1 >= pending->capacity) {
+        for (int32_t i = 0; i < n; i++) {
+            janet_q_pop(pending, &entry, sizeof(entry));
+            if (entry.sched_id == entry.fiber->sched_id) {
+                janet_q_push(pending, &entry, sizeof(entry));
+            }
+        }
+    }
 }
 
 static int janet_channel_push_with_lock(JanetChannel *channel, Janet x, int mode, Janet *err) {
